@@ -978,23 +978,83 @@ fn big_frame_program(n: usize) -> String {
     s
 }
 
-fn big_pool_program(n: usize) -> String {
+/// Table-driven: every `*Imm` instruction kind once with a literal that is FIRST mentioned after more than
+/// 65536 other distinct constants of its type (so `expand_immediates` / `without_imm` handles it), executed
+/// with run-time operands that tell the instruction from its neighbours (comparisons: below, equal, above;
+/// arithmetic: non-commutative values). Returns the program and its known output.
+fn big_pool_probe(n: usize) -> (String, String) {
     let ints: Vec<String> = (0..n).map(|i| i.to_string()).collect();
     let floats: Vec<String> = (0..n).map(|i| format!("{i}.5")).collect();
-    format!(
-        "let a = [{}]\nlet n = a.len()\nprintln(n + 700001)\nprintln(n * 700002)\nprintln(n < 700003)\nprintln(700004 - n)\nvar m = n\nm = 700005\nprintln(m)\na.push(700006)\nprintln(a[a.len() - 1])\nprintln(n + 5)\nlet f = [{}]\nlet x = f[1]\nprintln(x + 700001.25)\nprintln(x < 700002.25)\nprintln(x * 700003.5)\nprintln(x + 2.5)\n",
-        ints.join(", "),
-        floats.join(", ")
-    )
-}
-
-fn big_pool_expected(n: usize) -> String {
-    let n = n as i64;
-    let x = 1.5f64;
-    format!(
-        "{}\n{}\n{}\n{}\n700005\n700006\n{}\n{}\n{}\n{}\n{}\n",
-        n + 700001, n * 700002, n < 700003, 700004 - n, n + 5, x + 700001.25, x < 700002.25, x * 700003.5, x + 2.5
-    )
+    let mut src = format!("let a = [{}]\nlet f = [{}]\nlet n = a.len()\n", ints.join(", "), floats.join(", "));
+    let mut exp = String::new();
+    let nn = n as i64;
+    // ---- ints: literal K = n + d is late (not an array element); operands are built from n and early literals
+    let int_ops = ["+", "-", "*", "/", "%", "<", "<=", ">", ">=", "=="];
+    for (j, op) in int_ops.iter().enumerate() {
+        let d = 1000 * (j as i64 + 1) + 7;
+        let k = nn + d;
+        for (t, x) in [k - 1, k, k + 1, 3 * k + 5, -(k + 2)].iter().enumerate() {
+            // x without mentioning K: multiples of n plus an early literal
+            let q = x.div_euclid(nn);
+            let r = x.rem_euclid(nn);
+            src.push_str(&format!("let xi{j}_{t} = n * {} + {r}\n", int_lit(q)));
+            src.push_str(&format!("println(xi{j}_{t} {op} {k})\n"));
+            let v: String = match *op {
+                "+" => (x + k).to_string(),
+                "-" => (x - k).to_string(),
+                "*" => (x * k).to_string(),
+                "/" => (x / k).to_string(),
+                "%" => x.rem_euclid(k).to_string(),
+                "<" => (*x < k).to_string(),
+                "<=" => (*x <= k).to_string(),
+                ">" => (*x > k).to_string(),
+                ">=" => (*x >= k).to_string(),
+                _ => (*x == k).to_string(),
+            };
+            exp.push_str(&v);
+            exp.push('\n');
+        }
+    }
+    // power with a late exponent: bases 1, -1, 0 (anything else overflows)
+    let kp = nn + 20001; // odd or even decides the sign for base -1
+    src.push_str(&format!("let one = n - {}\nlet mone = {} - n\nlet zero = n - n\n", nn - 1, nn - 1));
+    src.push_str(&format!("println(one ^ {kp})\nprintln(mone ^ {kp})\nprintln(zero ^ {kp})\n"));
+    exp.push_str(&format!("1\n{}\n0\n", if kp % 2 == 0 { 1 } else { -1 }));
+    // store and array push with late literals
+    let (ks, ka) = (nn + 30001, nn + 30002);
+    src.push_str(&format!("var m = n\nm = {ks}\nprintln(m)\na.push({ka})\nprintln(a[a.len() - 1])\nprintln(a.len())\n"));
+    exp.push_str(&format!("{ks}\n{ka}\n{}\n", nn + 1));
+    // ---- floats: literal K = 70000.5 + j is late (pool entries are i.5 with i < n only up to n - 0.5: keep K above)
+    let float_ops = ["+", "-", "*", "/", "<", "<=", ">", ">=", "=="];
+    for (j, op) in float_ops.iter().enumerate() {
+        let k = nn as f64 + 1000.25 + j as f64; // .25: never an array element
+        // operands from array elements: base = f[n-1] + f[i] + f[0] ... exact binary fractions
+        // K = (n - 0.5) + (1000.5 + j) + 0.25 is not reachable from .5 values alone, so use quarter = f[0] * f[0]
+        for (t, delta) in [-1.0f64, 0.0, 1.0, 2.5].iter().enumerate() {
+            let i = 1000 + j; // f[i] = 1000.5 + j
+            src.push_str(&format!("let yf{j}_{t} = f[{}] + f[{i}] + f[0] * f[0] + {}\n", n - 1, float_lit(*delta)));
+            let y = (nn as f64 - 0.5) + (i as f64 + 0.5) + 0.25 + delta;
+            src.push_str(&format!("println(yf{j}_{t} {op} {})\n", float_lit(k)));
+            let v: String = match *op {
+                "+" => (y + k).to_string(),
+                "-" => (y - k).to_string(),
+                "*" => (y * k).to_string(),
+                "/" => (y / k).to_string(),
+                "<" => (y < k).to_string(),
+                "<=" => (y <= k).to_string(),
+                ">" => (y > k).to_string(),
+                ">=" => (y >= k).to_string(),
+                _ => (y == k).to_string(),
+            };
+            exp.push_str(&v);
+            exp.push('\n');
+        }
+    }
+    // float power with a late exponent
+    let kpf = 2.25f64;
+    src.push_str(&format!("let b1 = f[1]\nlet b3 = f[3]\nprintln(b1 ^ {kpf})\nprintln(b3 ^ {kpf})\n"));
+    exp.push_str(&format!("{}\n{}\n", 1.5f64.powf(kpf), 3.5f64.powf(kpf)));
+    (src, exp)
 }
 
 /// the constant pool exactly as `gather_constants` numbers it (order of first occurrence)
@@ -1026,7 +1086,7 @@ fn gather_pool(lines: &[String]) -> (Vec<i64>, Vec<String>) {
 
 /// the `expand_immediates` tie for one program: request for the model and the implementation's final
 /// instruction list (`Name` / `Name:<constant>` per VM instruction, assembly names)
-fn expand_case(dump: &Dump, d: &abra_core::verif_asm::ProgramDump, name: &str, spec: &mut Vec<String>) -> Option<(String, String, usize)> {
+fn expand_case(dump: &Dump, d: &abra_core::verif_asm::ProgramDump, name: &str, spec: &mut Vec<String>) -> Option<(String, String, usize, Vec<String>)> {
     let last = dump.trace.last()?;
     let (ints, floats) = gather_pool(last);
     if ints != d.int_constants {
@@ -1082,7 +1142,26 @@ fn expand_case(dump: &Dump, d: &abra_core::verif_asm::ProgramDump, name: &str, s
     if out.len() > n_lines {
         expanded = out.len() - n_lines;
     }
-    Some((req, out.join(" "), expanded))
+    // which immediate-operand instruction kinds carry a constant without a 16-bit index
+    let late_i: std::collections::HashSet<i64> = ints.iter().skip(65536).cloned().collect();
+    let late_f: std::collections::HashSet<&String> = floats.iter().skip(65536).collect();
+    let mut kinds: Vec<String> = vec![];
+    for l in last {
+        let Some(t) = instr_text(l) else { continue };
+        let nm = t.split('(').next().unwrap_or("");
+        if !nm.ends_with("Imm") {
+            continue;
+        }
+        let late = if nm.ends_with("FloatImm") {
+            quoted(t).map(|q| late_f.contains(&q.to_string())).unwrap_or(false)
+        } else {
+            t.trim_end_matches(')').rsplit(|c| c == ',' || c == '(').next().and_then(|x| x.trim().parse::<i64>().ok()).map(|v| late_i.contains(&v)).unwrap_or(false)
+        };
+        if late && !kinds.iter().any(|k| k == nm) {
+            kinds.push(nm.to_string());
+        }
+    }
+    Some((req, out.join(" "), expanded, kinds))
 }
 
 // ------------------------------------------------------------------ main
@@ -1129,7 +1208,10 @@ fn main() {
     // expanded back to push + plain instruction)
     let probes: Vec<(String, String, String)> = vec![
         ("probeD90".to_string(), big_frame_program(17000), "17000\n-16999\n".to_string()),
-        ("probebigpool".to_string(), big_pool_program(65540), big_pool_expected(65540)),
+        {
+            let (src, exp) = big_pool_probe(65540);
+            ("probebigpool".to_string(), src, exp)
+        },
     ];
     // (first in the list: they are the slowest to compile and should overlap with everything else)
     for (n, src, _) in &probes {
@@ -1148,7 +1230,7 @@ fn main() {
         on: Canon,
         off: Canon,
         dump: Option<Dump>,
-        expand: Option<(String, String, usize)>,
+        expand: Option<(String, String, usize, Vec<String>)>,
         expand_spec: Vec<String>,
     }
     let results = par_map(&programs, |(name, src)| {
@@ -1185,9 +1267,12 @@ fn main() {
         let st = r.on.status.split(':').next().unwrap_or("").to_string();
         ctx.count(&format!("outcome:{family}:{st}"));
         if r.on != r.off {
+            let shown: String = if src.len() > 20000 { format!("(source of {} bytes omitted: see the probe's generator in c05.rs)", src.len()) } else { src.clone() };
+            let (a, b): (Vec<&str>, Vec<&str>) = (r.on.out.lines().collect(), r.off.out.lines().collect());
+            let at = a.iter().zip(&b).position(|(x, y)| x != y).unwrap_or(a.len().min(b.len()));
             ctx.spec_fail(format!(
-                "program {name}: optimizer on → {:?}; optimizer off → {:?}\n{src}",
-                r.on, r.off
+                "program {name}: optimizer on → {} top {}; optimizer off → {} top {}; outputs first differ at printed line {at}: on {:?}, off {:?}\n{shown}",
+                r.on.status, r.on.top, r.off.status, r.off.top, a.get(at), b.get(at)
             ));
         }
         if r.on.status == "rejected" && std::env::var("VERIF_DEBUG").is_ok() && family == "gen" {
@@ -1250,7 +1335,14 @@ fn main() {
         let i = programs.iter().position(|p| &p.0 == name).unwrap();
         for (which, c) in [("on", &results[i].on), ("off", &results[i].off)] {
             if c.status != "done" || &c.out != expected {
-                ctx.spec_fail(format!("regression probe {name} (optimizer {which}): {} {:?}, expected done {:?}", c.status, c.out.chars().take(300).collect::<String>(), expected));
+                let (a, b): (Vec<&str>, Vec<&str>) = (c.out.lines().collect(), expected.lines().collect());
+                let at = a.iter().zip(&b).position(|(x, y)| x != y).unwrap_or(a.len().min(b.len()));
+                let src_line = programs[i].1.lines().filter(|l| l.starts_with("println(")).nth(at).unwrap_or("?");
+                let shown: String = src_line.chars().take(200).collect();
+                ctx.spec_fail(format!(
+                    "regression probe {name} (optimizer {which}): status {}; printed line {at} is {:?}, expected {:?}; it is printed by `{shown}` (operands are built from n = the array length)",
+                    c.status, a.get(at), b.get(at)
+                ));
             }
         }
     }
@@ -1260,11 +1352,21 @@ fn main() {
         for s in &r.expand_spec {
             ctx.spec_fail(s.clone());
         }
-        if let Some((req, imp, expanded)) = &r.expand {
+        if let Some((req, imp, expanded, kinds)) = &r.expand {
             ctx.case(req.clone(), imp.clone());
             *ctx.hist.entry("expand:immediates-expanded".into()).or_insert(0) += *expanded as u64;
-            if name == "probebigpool" && *expanded == 0 {
-                ctx.spec_fail("probebigpool: no immediate was expanded although the pool has more than 65536 entries (the generator no longer reaches expand_immediates)".to_string());
+            for k in kinds {
+                ctx.count(&format!("expand:late-constant:{k}"));
+            }
+            if name == "probebigpool" {
+                const ALL: [&str; 23] = ["AddIntImm", "SubIntImm", "MulIntImm", "DivIntImm", "PowIntImm", "ModuloImm", "LessThanIntImm",
+                    "LessThanOrEqualIntImm", "GreaterThanIntImm", "GreaterThanOrEqualIntImm", "EqualIntImm", "StoreOffsetImm", "ArrayPushIntImm",
+                    "AddFloatImm", "SubFloatImm", "MulFloatImm", "DivFloatImm", "PowFloatImm", "LessThanFloatImm", "LessThanOrEqualFloatImm",
+                    "GreaterThanFloatImm", "GreaterThanOrEqualFloatImm", "EqualFloatImm"];
+                let missing: Vec<&&str> = ALL.iter().filter(|k| !kinds.iter().any(|x| x == **k)).collect();
+                if !missing.is_empty() || *expanded == 0 {
+                    ctx.spec_fail(format!("probebigpool: these immediate-operand instructions do not occur with a constant beyond the 16-bit pool index (the probe no longer reaches without_imm for them): {missing:?}"));
+                }
             }
         }
     }
